@@ -31,7 +31,7 @@ def run(tier):
     ck.assumptions = ["families with rational kernel values: SE with 1/(2L^2) = m ln2, RQ with alpha in {1,2}, noise variances 2^j, change-point width 1/ln2",
                       "the stabilising jitter is a free parameter: builder - pairwise must be a small non-negative multiple of the identity (<= 1e-9 amplitude^2; the code's is 1e-12 amplitude^2) plus the noise variances",
                       "change-points with 4 kernels only on a two-point set, sums inside change-points not enumerated (32-bit exact arithmetic)"]
-    r = run_tlc("MC_KernelExact", cfg_text="INIT Init\nNEXT Next\nINVARIANT ValidCov\nINVARIANT GradCount\nCHECK_DEADLOCK FALSE\n", timeout=1800)
+    r = run_tlc("MC_KernelExact", cfg_text="INIT Init\nNEXT Next\nCONSTANT Deep = %s\nINVARIANT ValidCov\nINVARIANT GradCount\nCHECK_DEADLOCK FALSE\n" % ("TRUE" if tier == "thorough" else "FALSE"), timeout=1800)
     if r.violated:
         ck.violation("spec: KernelExact " + ",".join(r.violated), {"violated": r.violated}, site="spec")
     must_pass(r, "MC_KernelExact")
